@@ -218,6 +218,23 @@ theorem Static.bump {binds : Array Binding} (hs : Static binds) {i : Nat} {b : B
   · simp only [hij, if_false] at hx
     exact hs j x hx e he
 
+/-- Replacing a binding by one with the same behaviour table keeps `Static`. -/
+theorem Static.replace {binds : Array Binding} (hs : Static binds) {i : Nat} {b : Binding} (h : binds[i]? = some b)
+    (b' : Binding) (he : b'.entries = b.entries) : Static (binds.setIfInBounds i b') := by
+  intro j x hx e hm
+  rw [Array.getElem?_setIfInBounds] at hx
+  by_cases hij : i = j
+  · subst hij
+    simp only [if_true] at hx
+    split at hx
+    · cases hx; rw [he] at hm; exact hs i b h e hm
+    · cases hx
+  · simp only [hij, if_false] at hx
+    exact hs j x hx e hm
+
+theorem Static.fired {binds : Array Binding} (hs : Static binds) {i : Nat} {b : Binding} (h : binds[i]? = some b) :
+    Static (binds.setIfInBounds i b.fired) := hs.replace h _ rfl
+
 @[simp] theorem offers_say_offer (st : St) (k : Kind) (w : WinTree.Id) (e : Ev) (b : Bool) :
     offers (st.say (.offer k w e b)).log = offers st.log ++ [(k, w, e)] := rfl
 
@@ -238,15 +255,18 @@ theorem runBindings_static (kind : Kind) (win : WinTree.Id) (ev : Ev) :
     | none => simpa [hb] using ih st hs
     | some b =>
       simp only [hb]
+      by_cases hg : b.gone = true
+      · simp only [hg, if_true]; exact ih st hs
+      simp only [hg, Bool.false_eq_true, if_false]
       have ha := hs.entry hb
       simp only [ha, doActions, res_pure, res_bind_ok]
       by_cases hr : b.entry.ret = true
       · simp only [hr, if_true]
-        exact ⟨_, true, rfl, rfl, rfl, hs.bump hb _, rfl, rfl⟩
+        exact ⟨_, true, rfl, rfl, rfl, hs.fired hb, rfl, rfl⟩
       · simp only [hr, if_false]
         obtain ⟨st', c, h1, h2, h3, h4, h5, h6⟩ := ih
-          (({ st with binds := st.binds.setIfInBounds bi { b with count := b.count + 1 } } : St).say
-            (.call kind win b.idx (entryIndex b) b.entry.ret ev)) (hs.bump hb _)
+          (({ st with binds := st.binds.setIfInBounds bi b.fired } : St).say
+            (.call kind win b.idx (entryIndex b) b.entry.ret ev)) (hs.fired hb)
         exact ⟨st', c, by simpa [hr] using h1, h2, h3, h4, h5, h6⟩
 
 theorem runHandlers_static (kind : Kind) (win : WinTree.Id) (ev : Ev) (st : St) (hs : Static st.binds) :
@@ -1346,8 +1366,11 @@ theorem runBindings_ext {P : LogItem → Prop} (hq : Quiet P) (kind : Kind) (win
     | none => simp only [hb] at h; exact ih _ _ _ h
     | some b =>
       simp only [hb] at h
+      by_cases hg : b.gone = true
+      · simp only [hg, if_true] at h; exact ih _ _ _ h
+      simp only [hg, Bool.false_eq_true, if_false] at h
       obtain ⟨st1, h1, h⟩ := res_bind_eq_ok.1 h
-      have e0 : Ext P st (({ st with binds := st.binds.setIfInBounds bi { b with count := b.count + 1 } } : St).say
+      have e0 : Ext P st (({ st with binds := st.binds.setIfInBounds bi b.fired } : St).say
           (.call kind win b.idx (entryIndex b) b.entry.ret ev)) :=
         (Ext.of_log (st' := { st with binds := _ }) rfl).trans (Ext.say _ (hcall _ _ _))
       have e1 := e0.trans (doActions_ext hq _ _ _ h1)
